@@ -448,6 +448,52 @@ def d3_ok_follows_grade(ctx, idx):
                 gv = p.leaf.expr.values[keys.index('grade_decimal')] if 'grade_decimal' in keys else None
                 if okv is not None and isinstance(okv, ast.Call) and nf.callee_name(okv) == OK_FUNC and nf.equal(okv.args[0], gv):
                     derived = True
+        # the three scalar verdict forms: decision over the complete domain of comparer returns {True, False, 'partial'
+        # (any case), a dictionary}; data stays symbolic, only the class of `value` drives the guards
+        vname = sc.params[-1]
+        want = {'True': (True, (1, 1.0)), 'False': (False, (0, 0.0)), "'partial'": ('partial', (0.5,)), "'PARTIAL'": ('partial', (0.5,))}
+        reps = {'True': True, 'False': False, "'partial'": 'partial', "'PARTIAL'": 'PARTIAL'}
+        paths = nf.decision_paths(sc.node.body)
+        for label, rep in reps.items():
+            chosen = None
+            unknown = False
+            raises = False
+            for p in paths:
+                tvs = []
+                for g in p.guards:
+                    t = _eval_value_guard(g, vname, rep)
+                    tvs.append(t)
+                    if t is not True:
+                        break
+                if tvs and tvs[-1] == 'raise':
+                    raises = True
+                    break
+                if any(t is None for t in tvs):
+                    unknown = True
+                    break
+                if all(t is True for t in tvs):
+                    chosen = p
+                    break
+            construct = 'ItemGrader.standardize_cfn_return(%s)' % label
+            if raises:
+                r.violation(construct, 'evaluating the tests of standardize_cfn_return for a comparer verdict of %s calls a string method on a '
+                            'non-string: AttributeError instead of a standardised result' % label, sc.loc)
+                continue
+            if unknown or chosen is None:
+                r.undecided(construct, 'guards not evaluable over the comparer-return classes', sc.loc)
+                continue
+            e = chosen.leaf.expr
+            okw, gw = want[label]
+            good = False
+            if chosen.leaf.kind == 'ret' and isinstance(e, ast.Dict):
+                keys = lib.dict_literal_keys(e)
+                if 'ok' in keys and 'grade_decimal' in keys:
+                    okv = nf.const_value(e.values[keys.index('ok')], '?')
+                    gv = nf.const_value(e.values[keys.index('grade_decimal')], '?')
+                    good = (okv is okw or (okv == okw and type(okv) is type(okw))) and gv in gw and not isinstance(gv, bool)
+            r.check(good, construct, 'returns (%r, %s)' % (okw, gw[0]),
+                    'a comparer verdict of %s is standardised to `%s` instead of ok=%r with grade %s' % (label, short(e) if e is not None else chosen.leaf.kind, okw, gw[0]),
+                    lib.loc(sc, chosen.leaf.stmt or sc.node), expected='ok=%r, grade_decimal=%s' % (okw, gw[0]))
         r.check(derived, 'ItemGrader.standardize_cfn_return', 'dictionary form: ok = grade_decimal_to_ok(grade_decimal)',
                 'the sanitiser no longer derives ok from grade_decimal for dictionary returns of comparers', sc.loc)
         ce = idx.func('mitxgraders.helpers.math_helpers.MathMixin.compare_evaluations')
@@ -551,6 +597,89 @@ def _true_results_never_returned(idx, f, base, r):
                 return False
             decided = True
     return True if decided or not (filtered or unfiltered) else None
+
+
+_DICT = object()
+
+
+def _eval_value_guard(g, vname, rep):
+    """Truth of a guard of standardize_cfn_return for a comparer return of class `rep`
+    (True / False / 'partial' / 'PARTIAL' / a dict); None if the guard is outside the evaluated forms."""
+    def val(e):
+        if isinstance(e, ast.Name) and e.id == vname:
+            return rep
+        if isinstance(e, ast.Constant):
+            return e.value
+        if isinstance(e, ast.Call) and isinstance(e.func, ast.Attribute) and e.func.attr in ('lower', 'upper', 'strip', 'casefold') \
+                and not e.args:
+            base = val(e.func.value)
+            if isinstance(base, str):
+                return getattr(base, e.func.attr)()
+            if base is _Unknown or base is _Raises:
+                return base
+            return _Raises       # bool / dict have no such method: AttributeError at run time
+        if isinstance(e, (ast.Tuple, ast.List, ast.Set)):
+            vs = [val(x) for x in e.elts]
+            return _Unknown if any(v is _Unknown for v in vs) else tuple(vs)
+        return _Unknown
+    if isinstance(g, ast.UnaryOp) and isinstance(g.op, ast.Not):
+        t = _eval_value_guard(g.operand, vname, rep)
+        return t if t in (None, 'raise') else (not t)
+    if isinstance(g, ast.BoolOp):
+        # left-to-right with short-circuit, as Python evaluates it
+        for v in g.values:
+            t = _eval_value_guard(v, vname, rep)
+            if t is None or t == 'raise':
+                return t
+            if isinstance(g.op, ast.And) and t is False:
+                return False
+            if isinstance(g.op, ast.Or) and t is True:
+                return True
+        return isinstance(g.op, ast.And)
+    if isinstance(g, ast.Call) and isinstance(g.func, ast.Name) and g.func.id == 'isinstance' and len(g.args) == 2:
+        v = val(g.args[0])
+        if v is _Unknown:
+            return None
+        names = [unparse(c).split('.')[-1] for c in (g.args[1].elts if isinstance(g.args[1], ast.Tuple) else [g.args[1]])]
+        kinds = {'str': isinstance(v, str), 'bool': isinstance(v, bool), 'dict': v is _DICT,
+                 'int': isinstance(v, bool), 'Number': isinstance(v, bool), 'Mapping': v is _DICT}
+        if any(n not in kinds for n in names):
+            return None
+        return any(kinds[n] for n in names)
+    if isinstance(g, ast.Compare) and len(g.ops) == 1:
+        a, b = val(g.left), val(g.comparators[0])
+        if a is _Raises or b is _Raises:
+            return 'raise'
+        if a is _Unknown or b is _Unknown:
+            return None
+        if a is _DICT or b is _DICT:
+            eq = a is b
+        else:
+            eq = a == b
+        op = type(g.ops[0])
+        if op is ast.Eq:
+            return eq
+        if op is ast.NotEq:
+            return not eq
+        if op is ast.Is:
+            return a is b
+        if op is ast.IsNot:
+            return a is not b
+        if op in (ast.In, ast.NotIn) and isinstance(b, tuple):
+            r_ = any((a is x) if (a is _DICT or x is _DICT) else (a == x) for x in b)
+            return r_ if op is ast.In else not r_
+        return None
+    if isinstance(g, ast.Name) and g.id == vname:
+        return bool(rep) if rep is not _DICT else None
+    return None
+
+
+class _UnknownType(object):
+    pass
+
+
+_Unknown = _UnknownType()
+_Raises = _UnknownType()
 
 
 def _pair_verdict(okv, gv, env):
@@ -754,6 +883,9 @@ def d6_ranges(ctx, idx):
 
 # ------------------------------------------------------------------------ self-test
 MUTANTS = [
+    Mutant('cfn-true-test-negated', BASE, "        if value == True:\n            return {'ok': True, 'msg': '', 'grade_decimal': 1.0}", "        if value != True:\n            return {'ok': True, 'msg': '', 'grade_decimal': 1.0}", 'D3'),
+    Mutant('cfn-false-test-flipped', BASE, "        elif value == False:\n            return {'ok': False, 'msg': '', 'grade_decimal': 0}", "        elif value != False:\n            return {'ok': False, 'msg': '', 'grade_decimal': 0}", 'D3'),
+    Mutant('cfn-partial-case-sensitive-or', BASE, "        elif isinstance(value, str) and value.lower() == 'partial':", "        elif isinstance(value, str) or value.lower() == 'partial':", 'D3'),
     Mutant('key-filter-widened', BASE, "        keys = ['ok', 'grade_decimal', 'msg']\n", "        keys = ['ok', 'grade_decimal', 'msg', 'all_awarded']\n", 'D1'),
     Mutant('single-filter-removed', BASE, "            result = {key: val for key, val in result.items() if key in keys}\n", "            pass\n", 'D1'),
     Mutant('list-filter-first-only', BASE, "                result['input_list'][idx] = cleaned\n", "                result['input_list'][idx] = cleaned\n                break\n", 'D1'),
